@@ -57,7 +57,8 @@ class C04(Check):
             "as a source literal in 6 positions (print argument, list element, map key, exported member and function "
             "of an imported module, never-executed code, function body); strings ending in a backslash are inexpressible "
             "as a literal and are counted, not run; raw (unescaped) tab/LF/CR spelling as a deviation; "
-            "(b) every example program of /repo/examples and /repo/leetcode_problems; (c) generated programs of the other "
+            "(b) every example program of /repo/examples and /repo/leetcode_problems and every program (single- or multi-file) of the repository's own test suite "
+            "(compiler/src/tests/*.rs, which the suite only ever runs in memory); (c) generated programs of the other "
             "checks' generators; (d) 7 programs of different compiled lengths (with / without an imported module): every revision compiled (or run) in a "
             "directory that already holds the outputs of every other revision, sequences compile-compile-execute, run-compile-execute, compile-run, run-run, "
             "compared with a fresh directory.  Each case is executed by `run` and by `compile`+`execute`; non-trivial = the program "
@@ -86,6 +87,7 @@ class C04(Check):
               ("L0c-stale-outputs-of-an-earlier-revision", [("stale", a, b, q) for a in range(len(STALE_PROGS)) for b in range(len(STALE_PROGS))
                                                             if a != b for q in range(len(STALE_SEQS))]),
               ("L1-examples", ex),
+              ("L1b-programs-of-the-repository-test-suite", [("test", t[0]) for t in corpus.test_projects()]),
               ("L2-strings<=2-raw-whitespace", list(strings(0, 2, ["print", "import"], raw=True))),
               ("L3-generated-corpus", [("gen", name) for name in gencorpus.names(tier)]),
               ("L4-strings=3-print+import", strings(3, 3, ["print", "import"]))]
@@ -147,6 +149,11 @@ class C04(Check):
             cwd, entry = corpus.stage(d, case[1], case[2])
             files = {}
             desc = {"example": case[2]}
+        elif case[0] == "test":
+            _, files, entry, _exp = next(t for t in corpus.test_projects() if t[0] == case[1])
+            driver.write_files(d, files)
+            cwd = d
+            desc = {"test": case[1]}
         elif case[0] == "dir":
             # function and module paths (instruction arguments) are derived from the path given on the command line
             dn = DIRNAMES[case[1]]
@@ -163,6 +170,7 @@ class C04(Check):
             driver.write_files(d, files)
             cwd = d
             desc = {"generated": case[1]}
+        loose = case[0] in ("ex", "test") and paths.iterates_a_map(cwd)
         d1 = os.path.join(d, "dump-run.txt")
         d2 = os.path.join(d, "dump-exec.txt")
         r1 = driver.run(["run", entry, "-q"], cwd, env={"MSCRIPT_VERIF_DUMP": d1}, timeout=(8 if os.environ.get("VERIF_TIER_","quick")=="quick" else 30))
@@ -186,7 +194,7 @@ class C04(Check):
                 sg["chars"] = "".join(sorted({("bs" if ch == "\\" else "q" if ch == '"' else "ws" if ch in " \t\n\r" else "x")[0:2] for ch in s_}))
                 sg["has_backslash"] = "\\" in s_
             else:
-                sg["name"] = desc.get("example") or desc.get("generated") or desc.get("dirname")
+                sg["name"] = desc.get("example") or desc.get("generated") or desc.get("dirname") or desc.get("test")
             sg.update(sig)
             viol.append({"sig": sg, "what": what, "detail": detail})
 
@@ -205,7 +213,7 @@ class C04(Check):
                 bad("exec-crash", f"execute ended with {r2.cls} while run ended with {r1.cls}: {r2.err[-300:]}")
             elif (r1.exit == 0) != (r2.exit == 0):
                 bad("status", f"run exit {r1.exit} vs execute exit {r2.exit}: {r2.err[-300:]}")
-            elif paths.canon_stdout(r1.out) != paths.canon_stdout(r2.out):
+            elif paths.canon_stdout(r1.out, loose) != paths.canon_stdout(r2.out, loose):
                 bad("stdout", f"stdout differs: run {r1.out[-200:]!r} vs execute {r2.out[-200:]!r}")
             dd = paths.diff_dumps(paths.read_dump(d1), paths.read_dump(d2))
             if dd:
